@@ -428,7 +428,7 @@ theorem evalConds_blk (x : Ctx) :
 theorem changeState_blk (cfg : Cfg) (x : Ctx) (t : Trans) (dst : Nat) (σ : Q) (s : St) (hb : Blk x σ s) :
     Post fin0 (Blk x) (Blk x) σ s (changeState sub sc cfg x t dst s) := by
   unfold changeState
-  cases cfg.state? t.source with
+  cases cfg.state? (s.stateOf x.model) with
   | none => exact post_err fin0 x σ s hb _
   | some src =>
     refine Post.bind (callbacks_blk fin0 sub sc hsub hcmds x .onExit (by simp) _ σ s hb) ?_
